@@ -4,7 +4,7 @@ import math
 from fractions import Fraction
 
 from ..cfgq import Scope, returned_nodes, bool_taken, iter_chain, closure_id_of, closure_env
-from ..exprs import strip, short_callee, show, leaf_name, walk, origin_desc, mkproj
+from ..exprs import strip, short_callee, show, leaf_name, walk, origin_desc, mkproj, ExprBuilder
 from ..facts import AnalysisError
 from ..formulas import LeafMap, compare, updates, fallback_chain
 from ..mir import callee_name
@@ -207,6 +207,38 @@ def run(ctx):
         ctx.ok("c17.calendar", "c17.calendar|weekly-runs", "7 daily names are run-length encoded: each name starts a run of 1, equal consecutive names add 1 (runs sum to 7)", sf.loc())
     else:
         ctx.violation("c17.calendar", "c17.calendar|weekly-runs", "run-length encoding of the week is not `start at 1, += 1 per repeated name`", sf.loc())
+    # ... and a run ends where the name differs from the name the *current run* started with: the name compared with is re-bound to the loop's name whenever a
+    # new run starts, and the new run's id is looked up from that same name
+    sb = sf.body
+    seb = ExprBuilder(sb)
+    cmp_sites = []
+    for b_, t_ in sb.calls():
+        if short_callee(callee_name(t_) or "") in ("eq", "ne") and len(t_["args"]) == 2:
+            a0, a1 = strip(seb.operand(t_["args"][0])), strip(seb.operand(t_["args"][1]))
+            for elem, other in ((a0, a1), (a1, a0)):
+                def is_day_elem(x):
+                    return x[0] == "proj" and strip(x[1])[0] == "call" and short_callee(strip(x[1])[1]) == "next" and "@Week" in show(x) and ".days" in show(x)
+                if is_day_elem(elem) and not is_day_elem(other):
+                    cmp_sites.append((b_, elem, other, t_.get("ln")))
+    if len(cmp_sites) == 1:
+        b_, elem, other, ln_ = cmp_sites[0]
+        defs_ = sb.defs().get(other[1], []) if other[0] == "var" else []
+        rebinds = [d for d in defs_ if d[0] == "st" and strip(seb.rvalue(d[3]["rv"])) == elem]
+        oname = other[2] if other[0] == "var" else show(other)[:60]
+        # the id of a new run: schedule_day_id(<the loop's name>)
+        newids = []
+        for u in runs:
+            if strip(u["term"])[0] == "agg":
+                idn = strip(strip(u["term"])[3][0])
+                newids.append(show(idn))
+        if rebinds:
+            ctx.ok("c17.calendar", "c17.calendar|weekly-runs|compared-name", "the name a day is compared with (`%s`) is re-bound to the day's name whenever a new run starts" % oname, sf.loc(ln_))
+        else:
+            ctx.violation("c17.calendar", "c17.calendar|weekly-runs|compared-name", "every day of the week is compared with `%s`, which is never re-bound inside the loop (it stays the "
+                          "week's first name): after the first change of name a day equal to the *first* day extends the current run instead of starting a new one, so a week "
+                          "A B A A A A A becomes A B B B B B B" % oname, sf.loc(ln_))
+    else:
+        raise AnalysisError("schedules_from_bdl: the comparison of consecutive day names of a week was not found (%d candidates)" % len(cmp_sites))
     # period lengths
     dc = None
     for sc in root.all_scopes():
